@@ -260,6 +260,26 @@ def h_forms(eng, stack, form):
             eng.prove(want is not None, f"per-call:{src}->{dst}:converted-only-when-reachable")
             if want is not None:
                 eng.prove(Or(*[Eq(r.magnitude, w) for w in want]), f"per-call:{src}->{dst}:value")
+        # compatibility questions with the contexts passed per call
+        reach = m2.reachable("L")
+        q = ureg.Quantity(x, "m")
+        eng.prove(q.is_compatible_with("s", *args, **kw) == ("T" in reach), "per-call:Quantity.is_compatible_with(s)")
+        eng.prove(ureg.Unit("m").is_compatible_with("g", *args, **kw) == ("M" in reach), "per-call:Unit.is_compatible_with(g)")
+        eng.prove(ureg.is_compatible_with("m", "s", *args, **kw) == ("T" in reach), "per-call:registry.is_compatible_with")
+        if not has_n:
+            from ..ctxmodel import BASE_UNITS_BY_DIM
+
+            want_names = set()
+            for dname in reach:
+                want_names |= BASE_UNITS_BY_DIM[dname]
+            eng.prove({str(uu) for uu in q.compatible_units(*args)} - {"kku"} == want_names, "per-call:Quantity.compatible_units")
+            eng.prove({str(uu) for uu in ureg.Unit("m").compatible_units(*args)} - {"kku"} == want_names, "per-call:Unit.compatible_units")
+        try:
+            q.to("s")
+        except DimensionalityError:
+            eng.prove(True, "per-call:nothing-left-active")
+        else:
+            eng.fail("per-call:context-left-active")
     elif form == "decorator":
         if len(stack) != 1 or stack[0][0] == "c5":
             return
